@@ -447,10 +447,20 @@ Qed.
 
 Lemma union_split ts j v :
   ld (TUnion ts) j = Ok v ->
-  (j = VNone /\ v = VNone /\ existsb is_tnone ts = true) \/ union_scan cfg ld j ts ts = Ok v.
+  (j = VNone /\ v = VNone /\ existsb is_tnone ts = true) \/
+  (exists a b, ts = [a; b] /\ (is_tnone a || is_tnone b) = true /\ ld a j = Ok v) \/
+  union_scan cfg ld j ts ts = Ok v.
 Proof.
-  destruct j; cbn [load]; intros H; try (right; exact H).
-  destruct (existsb is_tnone ts) eqn:E; [|right; exact H]. left. inversion H. repeat split; reflexivity.
+  cbn [load]. destruct ts as [|a [|b [|c r]]].
+  - destruct j; intros H; right; right; exact H.
+  - destruct j; intros H; try (right; right; exact H).
+    destruct (existsb is_tnone [a]) eqn:E; [|right; right; exact H]. left. inversion H. repeat split; assumption.
+  - destruct (is_tnone a || is_tnone b) eqn:E.
+    + destruct j; intros H; try (right; left; exists a, b; repeat split; assumption).
+      left. inversion H. repeat split. cbn [existsb]. rewrite orb_false_r. exact E.
+    + destruct j; intros H; right; right; exact H.
+  - destruct j; intros H; try (right; right; exact H).
+    destruct (existsb is_tnone (a :: b :: c :: r)) eqn:E; [|right; right; exact H]. left. inversion H. repeat split; assumption.
 Qed.
 
 Lemma opt_split t j v :
@@ -538,15 +548,22 @@ Proof.
     apply COptSome. eapply IH; eauto.
   - (* TUnion *)
     inversion Hwf as [| | | | | | | | | | | | | |? Hw| | | |]; subst.
-    apply union_split in E as [(-> & -> & Hex)|E].
+    apply union_split in E as [(-> & -> & Hex)|[(a & b & -> & Hab & Hl)|E]].
     + apply existsb_exists in Hex as (t' & Hin & Ht'). destruct t'; try discriminate.
       eapply CUnion; [exact Hin | constructor].
+    + (* Optional-like two-member Union: the parser of the FIRST written member *)
+      inversion IH as [|? ? IHa _]; subst. inversion Hw as [|? ? Hwa _]; subst.
+      eapply CUnion; [left; reflexivity|].
+      unfold Pty in IHa. apply (IHa Hwa) with (j := j); [| exact Hl].
+      intros El. specialize (Hsafe El). cbn [safe_ty forallb none_first2] in Hsafe.
+      apply andb_true_iff in Hsafe as [Hall Hnf]. apply andb_true_iff in Hall as [Ha _].
+      destruct (is_tnone a) eqn:Ea; [discriminate|]. cbn [orb] in Ha. exact Ha.
     + apply union_scan_src in E as (t' & Hin & Hn & Hl).
       assert (Hin' : In t' ts) by tauto.
       eapply CUnion; [exact Hin'|].
       eapply Forall_forall in IH; [|exact Hin']. eapply Forall_forall in Hw; [|exact Hin'].
       eapply IH; [assumption | | exact Hl].
-      intros El. specialize (Hsafe El). cbn [safe_ty] in Hsafe.
+      intros El. specialize (Hsafe El). cbn [safe_ty] in Hsafe. apply andb_true_iff in Hsafe as [Hsafe _].
       eapply forallb_forall in Hsafe; [|exact Hin']. rewrite Hn in Hsafe. exact Hsafe.
   - eapply load_literal_ok; exact E.
   - (* TNamedTuple *)
